@@ -162,7 +162,12 @@ type Sim struct {
 	logOn      bool
 	txCounter  int
 	Signed     *Ledger
-	trace      hash.Hash
+	Rounds     map[string]*RoundInfo
+	// NoMoreBumps: after GST no further root-height updates are started
+	NoMoreBumps bool
+	HealedAt    int64
+	RoundOrder  []*RoundInfo
+	trace       hash.Hash
 }
 
 // TraceHash identifies the schedule that was executed (order and timing of every processed event).
@@ -239,7 +244,7 @@ func KeyFor(i int) crypto.PrivateKeyI {
 
 // New builds a simulation.
 func New(cfg Config, adv Adversary) *Sim {
-	s := &Sim{Cfg: cfg, Adv: adv, Rng: rand.New(rand.NewSource(cfg.Seed)), Commits: map[uint64][]Commit{}, Signed: &Ledger{}, trace: sha256.New()}
+	s := &Sim{Cfg: cfg, Adv: adv, Rng: rand.New(rand.NewSource(cfg.Seed)), Commits: map[uint64][]Commit{}, Signed: &Ledger{}, trace: sha256.New(), Rounds: map[string]*RoundInfo{}}
 	s.Stats.HandleErrs = map[string]int{}
 	n := len(cfg.Powers)
 	s.Vals = &lib.ConsensusValidators{}
@@ -332,6 +337,9 @@ func (s *Sim) InjectBlock(to int, data []byte, delay int64) {
 // BumpRoot makes root height `root` visible to replica i after visDelay and processes the NEW_COMMITTEE
 // reset resetDelay later (the real node updates RCManager first, then queues ResetBFT).
 func (s *Sim) BumpRoot(i int, root uint64, visDelay, resetDelay int64) {
+	if s.NoMoreBumps {
+		return
+	}
 	s.push(&event{at: s.Now + visDelay, kind: evRootVisible, to: i, root: root})
 	s.push(&event{at: s.Now + visDelay + resetDelay, kind: evRootReset, to: i, root: root})
 }
